@@ -82,6 +82,13 @@ def terminators():
         ('user-args-str-raises', ['class Boom(Exception):', '    def __str__(self):', '        raise ValueError("no str")', 'raise Boom("details", 42)'],
          'Boom', ['Boom', 'Exception', 'BaseException', 'object'], 3),
         ('empty-message', ['raise ValueError("")'], 'ValueError', ['ValueError', 'Exception', 'BaseException', 'object'], 0),
+        # messages made of blank space only
+        ('blank-message', ['raise ValueError(" ")'], 'ValueError', ['ValueError', 'Exception', 'BaseException', 'object'], 0),
+        ('newline-message', ['raise Exception("\\n")'], 'Exception', ['Exception', 'BaseException', 'object'], 0),
+        ('tab-message', ['raise KeyError("\\t ")'], 'KeyError', ['KeyError', 'LookupError', 'Exception', 'BaseException', 'object'], 0),
+        ('sys-exit-blank', ['import sys', 'sys.exit("  ")'], 'SystemExit', ['SystemExit', 'BaseException', 'object'], 1),
+        ('user-str-blank', ['class Boom(Exception):', '    def __str__(self):', '        return "  \\n"', 'raise Boom()'],
+         'Boom', ['Boom', 'Exception', 'BaseException', 'object'], 3),
         ('assert-empty-message', ['assert 1 == 2, ""'], 'AssertionError', ['AssertionError', 'Exception', 'BaseException', 'object'], 0),
         ('sys-exit-empty', ['import sys', 'sys.exit("")'], 'SystemExit', ['SystemExit', 'BaseException', 'object'], 1),
         # raised by the student's own code about ANOTHER text: the failure is on the student's raising line
